@@ -1,0 +1,41 @@
+//go:build verif
+
+package tcpassembly
+
+// Read-only accessors for the verification harness (build tag `verif` only).
+// They expose counters the lifecycle/leak-freedom property is stated about and
+// change no behaviour.
+
+// VerifPagesUsed returns the number of pages handed out by the assembler's
+// page cache and not yet returned.
+func (a *Assembler) VerifPagesUsed() int { return a.pc.used }
+
+// VerifConnPages returns, for every live connection of the assembler's pool,
+// the connection's own page counter and the length of its page list.
+func (a *Assembler) VerifConnPages() (counters, listed []int) {
+	a.connPool.mu.RLock()
+	defer a.connPool.mu.RUnlock()
+	for _, c := range a.connPool.conns {
+		n := 0
+		for p := c.first; p != nil; p = p.next {
+			n++
+		}
+		counters = append(counters, c.pages)
+		listed = append(listed, n)
+	}
+	return
+}
+
+// VerifLiveConnections returns the number of connections in the pool.
+func (p *StreamPool) VerifLiveConnections() int {
+	p.mu.RLock()
+	defer p.mu.RUnlock()
+	return len(p.conns)
+}
+
+// VerifFreeConnections returns the length of the pool's free list.
+func (p *StreamPool) VerifFreeConnections() int {
+	p.mu.RLock()
+	defer p.mu.RUnlock()
+	return len(p.free)
+}
